@@ -18,7 +18,8 @@ RULE = ("states are networks (canonical key = extracted netlist); initial states
         "exemption lists {none, each single source/short, all}); results are fed to further operations up to the stated "
         "depth; every transition is judged by a netlist-level reference of the operation, an input-unchanged snapshot and "
         "electrical equivalence (reference solver / reference port impedance on original and result); "
-        "non-trivial = transition whose result differs from its input")
+        "non-trivial = transition whose result differs from its input"
+        ' Additions: twin-element pass (palette eq), extreme-value pass (palette xt, judged structurally), nested ids.')
 ASSUMPTIONS = ["numpy.linalg accuracy on the palettes", "equivalence is judged with the reference solver on the extracted result, so only the transformer is under test"]
 EXPLANATION = "explicit-state search; each transition calls the real transformer on the real object reached by the previous transitions"
 KINDS_T = ("Z", "V", "short", "open", "I", "LV")
